@@ -5,6 +5,7 @@ pub mod api;
 pub mod bp;
 pub mod confe2e;
 pub mod consdrop;
+pub mod dropconn;
 pub mod faults;
 pub mod framebuf;
 pub mod hbe2e;
@@ -18,6 +19,7 @@ pub mod slots;
 pub mod smoother;
 pub mod tune;
 pub mod url;
+pub mod urlopen;
 
 /// One engine instance = the state for one `case`.
 pub trait Engine {
@@ -30,6 +32,7 @@ pub fn make(name: &str) -> Option<Box<dyn Engine>> {
         "bp" => Some(Box::new(bp::BpEngine::default())),
         "confe2e" => Some(Box::new(confe2e::ConfE2e::default())),
         "consdrop" => Some(Box::new(consdrop::ConsDropEngine::default())),
+        "dropconn" => Some(Box::new(dropconn::DropConnEngine::default())),
         "faults" => Some(Box::new(faults::FaultsEngine::default())),
         "framebuf" => Some(Box::new(framebuf::FrameBufEngine::default())),
         "hbe2e" => Some(Box::new(hbe2e::HbE2e::default())),
@@ -44,6 +47,7 @@ pub fn make(name: &str) -> Option<Box<dyn Engine>> {
         "smoother" => Some(Box::new(smoother::SmootherEngine::default())),
         "tune" => Some(Box::new(tune::TuneEngine::default())),
         "url" => Some(Box::new(url::UrlEngine::default())),
+        "urlopen" => Some(Box::new(urlopen::UrlOpenEngine::default())),
         "urlparts" => Some(Box::new(url::UrlPartsEngine::default())),
         _ => None,
     }
